@@ -79,6 +79,11 @@ CLAIMED = {
   text="Static taint over all inputs: filter key/operator/value never reach the SQL fragment of any filter callback unsanitised (constant equality on all paths, constant-map lookup, quote-safe anchored regexp proved from its syntax tree, numeric/time types); the query combinators add only constant text; every SelectQuery format argument in ledgerstore derives from constants, Build results, rendered sub-queries or clean parameters (checked at all call sites). bun's quoting of bound arguments is trusted; cursor Column/Order are outside the statement.",
   design_ref="DESIGN.md §3 C20",
   technique="interprocedural SSA taint analysis with path-refined sanitisers and regexp/syntax safety proof (static analysis)"),
+ "C17": dict(
+  category="other",
+  text="Only the token clause is decided (`every cursor token the server hands out is accepted back and stands for the same query, filters included`), for every cursor payload type at once: the instantiated type graphs of all cursor payloads are walked (exported+tagged fields, codec pairs, interface fields rebuilt by an enclosing UnmarshalJSON while every implementation encodes itself), encoder/decoder use the same base64 object and encoding/json, and the operator vocabulary emitted by the builders' MarshalJSON is accepted by the parser. Page arithmetic (next/previous/hasMore, exactly-once enumeration) is numerical and NOT decided.",
+  design_ref="DESIGN.md §3 C17",
+  technique="type-graph walk over instantiated generics + writer/reader table agreement (static analysis)"),
 }
 
 NOT_APPLICABLE = {
